@@ -37,6 +37,7 @@ func init() {
 	gens["Src_addtarget.v"] = genGoLoopAddTarget
 	gens["Src_decompress.v"] = genGoLiteDecompress
 	gens["Src_normpath.v"] = genGoLoopNormPath
+	gens["Src_allowhandlers.v"] = genGoLiteAllowHandlers
 }
 
 // innerHandler finds the innermost function literal of shape func(c echo.Context) error inside fd.
@@ -1457,4 +1458,70 @@ func genGoLoopNormPath(repo string) (string, error) {
 		return "", err
 	}
 	return goloopHeader + "(* router.go: normalizePathSlash - what Router.add and Router.insert make of a registered pattern before anything else looks at it. *)\n" + s, nil
+}
+
+// funcLitOfVar finds `var name = func(...) ... {...}` at package level.
+func funcLitOfVar(f *ast.File, name string) *ast.FuncLit {
+	for _, d := range f.Decls {
+		gd, ok := d.(*ast.GenDecl)
+		if !ok || gd.Tok != token.VAR {
+			continue
+		}
+		for _, sp := range gd.Specs {
+			vs, ok := sp.(*ast.ValueSpec)
+			if !ok {
+				continue
+			}
+			for i, n := range vs.Names {
+				if n.Name == name && i < len(vs.Values) {
+					if fl, ok := vs.Values[i].(*ast.FuncLit); ok {
+						return fl
+					}
+				}
+			}
+		}
+	}
+	return nil
+}
+
+func genGoLiteAllowHandlers(repo string) (string, error) {
+	fe, err := parseFile(repo, "echo.go")
+	if err != nil {
+		return "", err
+	}
+	fr, err := parseFile(repo, "router.go")
+	if err != nil {
+		return "", err
+	}
+	out := goliteHeader + "(* echo.go: MethodNotAllowedHandler; router.go: the closure returned by optionsMethodHandler.  The value kept in the context under\n   ContextKeyHeaderAllow and whether it is a string come from the input stream; header changes and NoContent are events. *)\n"
+	fl := funcLitOfVar(fe, "MethodNotAllowedHandler")
+	if fl == nil {
+		return "", fmt.Errorf("MethodNotAllowedHandler not found")
+	}
+	s, err := goliteFunc(&ast.FuncDecl{Name: ast.NewIdent("MethodNotAllowedHandler"), Type: fl.Type, Body: fl.Body}, "method_not_allowed_handler",
+		goliteCfg{ignore: map[string]bool{}, extern: map[string]bool{}, cells: map[string]bool{}})
+	if err != nil {
+		return "", err
+	}
+	out += s
+	fd := findFunc(fr, "", "optionsMethodHandler")
+	if fd == nil {
+		return "", fmt.Errorf("optionsMethodHandler not found")
+	}
+	var fl2 *ast.FuncLit
+	ast.Inspect(fd.Body, func(n ast.Node) bool {
+		if x, ok := n.(*ast.FuncLit); ok && fl2 == nil {
+			fl2 = x
+		}
+		return true
+	})
+	if fl2 == nil {
+		return "", fmt.Errorf("optionsMethodHandler: no closure found")
+	}
+	s, err = goliteFunc(&ast.FuncDecl{Name: fd.Name, Type: fl2.Type, Body: fl2.Body}, "options_method_handler",
+		goliteCfg{ignore: map[string]bool{}, extern: map[string]bool{}, cells: map[string]bool{}, tail: map[string]bool{"c.NoContent": true}})
+	if err != nil {
+		return "", err
+	}
+	return out + s, nil
 }
